@@ -234,9 +234,19 @@ class TableKeyParameter(Parameter):
     @override
     def _decode_positioned_from_pdu(self, decode_state: DecodeState) -> ParameterValue:
         if self.table_row is not None:
-            # the table row to be used is statically specified -> no
-            # need to decode anything!
+            # the table row to be used is statically specified. Its
+            # key is still part of the PDU (it is emitted when
+            # encoding), i.e., it must be consumed and it ought to
+            # exhibit the value of the selected row.
+            key_dop = odxrequire(self.table.key_dop)
+            key_dop_val = key_dop.decode_from_pdu(decode_state)
+            if key_dop_val != self.table_row.key:
+                odxraise(
+                    f"Table key parameter '{self.short_name}' statically selects the "
+                    f"row '{self.table_row.short_name}' (key {self.table_row.key!r}), "
+                    f"but the PDU specifies the key {key_dop_val!r}", DecodeError)
             phys_val = self.table_row.short_name
+            decode_state.table_keys[self.short_name] = self.table_row
         else:
             # Use DOP to decode
             key_dop = odxrequire(self.table.key_dop)
